@@ -317,3 +317,40 @@ void h_cbor_decode_arbitrary(void) {
     aws_cbor_decoder_destroy(dec);
     WITNESS("cbor arbitrary");
 }
+
+/* ---- C04: ONE decoder step on arbitrary bytes (a single cbor_stream_decode call fits; the loop above does not) ----
+ * N arbitrary bytes in an object of exactly N bytes: peek the first item and pop it.  Decides: no access outside the input (a
+ * string head announcing more bytes than there are -- including lengths near 2^64 -- must be refused), failure is reported with a
+ * registered error, a byte/text view lies inside the input and has exactly the announced length, the item consumes head + payload. */
+void h_cbor_decode_first(void) {
+    uint8_t *t = verif_malloc(N ? N : 1);
+    ND_FILL(t, N, N);
+    in_base = t;
+    struct aws_byte_cursor src = {.len = N, .ptr = t};
+    struct aws_cbor_decoder *dec = aws_cbor_decoder_new(verif_allocator(), src);
+    enum aws_cbor_type ty = AWS_CBOR_TYPE_UNKNOWN;
+    unsigned mj, ai; uint64_t arg; size_t hl;
+    bool head_ok = ref_head(t, N, &mj, &arg, &hl, &ai);
+    int rc = aws_cbor_decoder_peek_type(dec, &ty);
+    if (rc != AWS_OP_SUCCESS) {
+        ASSERT(aws_last_error() == AWS_ERROR_INVALID_CBOR || aws_last_error() == AWS_ERROR_OVERFLOW_DETECTED, "cbor first item: failure reports a registered error");
+        if (head_ok && (mj == 2 || mj == 3) && ai != 31) ASSERT(arg > N - hl, "cbor first item: a definite string is refused only if its payload is not all there");
+        if (head_ok && (mj == 2 || mj == 3) && ai == 27 && arg > (uint64_t)-9) WITNESS("cbor first item: string length near 2^64 refused");
+        WITNESS("cbor first item: rejected");
+    } else if (ty == AWS_CBOR_TYPE_BYTES || ty == AWS_CBOR_TYPE_TEXT) {
+        struct aws_byte_cursor c = {0};
+        ASSERT((ty == AWS_CBOR_TYPE_BYTES ? aws_cbor_decoder_pop_next_bytes_val(dec, &c) : aws_cbor_decoder_pop_next_text_val(dec, &c)) == AWS_OP_SUCCESS, "cbor first item: pop string");
+        ASSERT(head_ok && mj == (ty == AWS_CBOR_TYPE_BYTES ? 2u : 3u), "cbor first item: string type matches the head");
+        ASSERT(arg <= N - hl && c.len == arg, "cbor first item: string view has the announced length, which fits the input");
+        if (c.len) ASSERT(c.ptr == t + hl, "cbor first item: string view starts right after the head");
+        view_inside(c);
+        ASSERT(aws_cbor_decoder_get_remaining_length(dec) == N - hl - (size_t)arg, "cbor first item: consumes head + payload");
+        if (c.len >= 2) WITNESS("cbor first item: string view");
+    } else {
+        ASSERT(head_ok, "cbor first item: accepted item has a well-formed head");
+        ASSERT(aws_cbor_decoder_consume_next_single_element(dec) == AWS_OP_SUCCESS, "cbor first item: consume");
+        ASSERT(aws_cbor_decoder_get_remaining_length(dec) < N, "cbor first item: consumes input");
+        WITNESS("cbor first item: non-string");
+    }
+    aws_cbor_decoder_destroy(dec);
+}
